@@ -314,6 +314,15 @@ def run(tier, seed, replay=None):
             law("slice", lambda: F(d[i:j]), lambda: F(d)[sum(lens[:i]):sum(lens[:j])]
                 if i < j else F(d[i:j]))
             law("slice_pybounds", lambda: F(d[pi:pj]), lambda: F(d)[i2:j2])
+            # REVERSED slices with arbitrary Python bounds (round 8): d[a:b:-1] is the dagger of the
+            # forward slice of the same boxes — the identity "where it starts" when it selects none
+            rstart, rstop, _ = slice(pi, pj, -1).indices(n)
+            rlo, rhi = rstop + 1, rstart + 1
+            rep.count("slice_reversed:" + ("empty" if rlo >= rhi else "nonempty") +
+                      (":negative_start" if isinstance(pi, int) and pi < 0 else ""))
+            fwd = (lambda: d[rlo:rhi]) if rlo < rhi else (lambda: d[rhi:rhi])
+            law("slice_reversed", lambda: F(d[pi:pj:-1]), lambda: F(fwd()[::-1]))
+            law("slice_reversed_value", lambda: d[pi:pj:-1], lambda: fwd()[::-1])
             Sv, S2v, Tv = run_sum(fam, S), run_sum(fam, S2), run_sum(fam, T)
             mksum = sum_class(fam)
             law("sum_image", lambda: F(Sv),
